@@ -828,7 +828,7 @@ def _process_graph_io_arguments(iofile, graph_type, file_format, multi_edges):
     # Check the graph type specification
     if graph_type not in ['dag', 'digraph', 'simple', 'bipartite']:
         raise ValueError("The graph type must be one of " +
-                         list(_graphformats.keys()))
+                         str(['dag', 'digraph', 'simple', 'bipartite']))
 
     if multi_edges:
         raise NotImplementedError("Multi edges not supported yet")
